@@ -28,7 +28,7 @@
 #include "hash.h"
 
 static char *magic_id = "NEOL";
-static uint32_t driver_id = 0x20260927; /* increment when driver changes */
+static uint32_t driver_id = 0x20260928; /* increment when driver changes */
 static uint64_t config_id = 0;
 
 static FILE *crdir_fopen(char *);
@@ -657,6 +657,21 @@ program_t *load_binary (const char *name) {
           inherit_file = buf;	/* freed elsewhere */
           return 0;
         }
+      /*
+       * The inherited program may have been rebuilt because of a file that is not in OUR dependency
+       * lists (a file its source includes, or something further up): it knows its newest source.
+       */
+      if (ob->prog->newest_source > mtime)
+        {
+          opt_trace (TT_COMPILE|1, "out of date (a source of inherited /%s is newer).", buf);
+          fclose (f);
+          free_string (p->name);
+          FREE (p);
+          FREE (buf);
+          return OUT_OF_DATE;
+        }
+      if (ob->prog->newest_source > p->newest_source)
+        p->newest_source = ob->prog->newest_source;
       p->inherit[i].prog = ob->prog;
     }
   opt_trace (TT_COMPILE|3, "loaded inherit names ok. num_inherited = %d.", p->num_inherited);
